@@ -459,7 +459,8 @@ class OpsMixin(object):
     """[(state, V | Raised)] for a <op> b with op in + - * / // % **."""
     if (isinstance(a, VVal) or isinstance(b, VVal)) and op in ('+', '-', '*', '/'):
       va, vb = self.views(st, a), self.views(st, b)
-      if va is not None and vb is not None and len(va) * len(vb) > 1:
+      num = lambda t: vv.as_intlike(t) is not None or isinstance(t, VFloat)
+      if va is not None and vb is not None and len(va) * len(vb) > 1 and any(num(t) for _, t in va) and any(num(t) for _, t in vb):
         return self.arith_cases(st, op, va, vb)
     out = []
     for s1, ra in self.resolve(st, a):
